@@ -23,6 +23,11 @@ GENERATED = ("Constants.v", "GlobalsGen.v", "KernelGen.v")
 # and does not recompile the 40 k-line development that does not mention the table.
 GLOBALS_CONE = ("GlobalsGen.v", "Globals.v", "Properties_C19.v")
 GLOBALS_EXTRA = ("Interleave.v",)
+# The same for the generated kernels: KernelGen.v changes whenever the text of key.c / rdb.c / rdbx.c / datatypes.c /
+# srtp_estimate_index changes; only the two equivalence files import it.  They are compiled in a small build of their own
+# (build_kernels) on top of the main build's .vo files.
+KERNEL_CONE = ("KernelGen.v", "KernelGenProofs.v", "KernelGenProofs2.v")
+SIDE_CONES = GLOBALS_CONE + KERNEL_CONE
 
 
 def sh(cmd, cwd=None, timeout=None, env=None, inp=None):
@@ -185,8 +190,8 @@ def build_coq(cdir, model_only=False):
     model_only: compile only the cone of Driver.v (the executable model) — used for the configurations
     other than the internal-crypto one, whose generated Constants.v carries other back-end flags: the
     theorems are about the internal configuration, the model runs in every configuration."""
-    gens = [os.path.join(cdir, g) for g in GENERATED if g not in GLOBALS_CONE and os.path.exists(os.path.join(cdir, g))]
-    fp = _hash_files([f for f in coq_sources() if os.path.basename(f) not in GLOBALS_CONE] + [os.path.join(VERIF, "harness/mdrv.ml")] + gens,
+    gens = [os.path.join(cdir, g) for g in GENERATED if g not in SIDE_CONES and os.path.exists(os.path.join(cdir, g))]
+    fp = _hash_files([f for f in coq_sources() if os.path.basename(f) not in SIDE_CONES] + [os.path.join(VERIF, "harness/mdrv.ml")] + gens,
                      "model-only" if model_only else "")
     qdir = os.path.join(CACHE, f"q{'m' if model_only else ''}-{fp}")
     with Lock("q"):
@@ -197,7 +202,7 @@ def build_coq(cdir, model_only=False):
         os.makedirs(qdir)
         cq = os.path.join(qdir, "coq")
         shutil.copytree(os.path.join(VERIF, "coq"), cq,
-                        ignore=shutil.ignore_patterns("*.vo", "*.vok", "*.vos", "*.glob", "*.aux", ".*", "WIP.txt", *wip_files(), *GLOBALS_CONE))
+                        ignore=shutil.ignore_patterns("*.vo", "*.vok", "*.vos", "*.glob", "*.aux", ".*", "WIP.txt", *wip_files(), *SIDE_CONES))
         for g in gens:
             shutil.copy(g, os.path.join(cq, os.path.basename(g)))
         vs = []
@@ -237,6 +242,40 @@ def build_coq(cdir, model_only=False):
         open(os.path.join(qdir, "DONE"), "w").write(time.ctime())
         prune("qm-" if model_only else "q-", 3)
     return qdir, status
+
+
+def build_kernels(cdir, qdir):
+    """the small build of the generated-kernel tie: KernelGen.v (regenerated from /repo) + KernelGenProofs.v + KernelGenProofs2.v,
+    compiled against the .vo files of the main build qdir (same logical root).  Returns (kdir, status)."""
+    srcs = [os.path.join(VERIF, "coq", f) for f in KERNEL_CONE[1:]]
+    gen = os.path.join(cdir, "KernelGen.v")
+    if not os.path.exists(gen):
+        return None, {}
+    fp = _hash_files(srcs + [gen], os.path.basename(qdir))
+    kdir = os.path.join(CACHE, f"k-{fp}")
+    with Lock("k"):
+        if os.path.exists(os.path.join(kdir, "DONE")):
+            os.utime(kdir)
+            return kdir, json.load(open(os.path.join(kdir, "status.json")))
+        shutil.rmtree(kdir, ignore_errors=True)
+        cq = os.path.join(kdir, "coq")
+        os.makedirs(cq)
+        status, log = {}, ""
+        t0 = time.time()
+        for f in [gen] + srcs:
+            shutil.copy(f, os.path.join(cq, os.path.basename(f)))
+        for f in KERNEL_CONE:
+            r = sh(["timeout", "900", "coqc", "-q", "-Q", cq, "Srtp", "-Q", os.path.join(qdir, "coq"), "Srtp", os.path.join(cq, f)], cwd=kdir, timeout=1000)
+            status[f] = r.returncode == 0
+            log += f"== {f}\n{r.stdout[-3000:]}{r.stderr[-3000:]}\n"
+            if r.returncode != 0:
+                break
+        open(os.path.join(kdir, "make.log"), "w").write(log)
+        status["_make_s"] = round(time.time() - t0, 1)
+        json.dump(status, open(os.path.join(kdir, "status.json"), "w"), indent=1)
+        open(os.path.join(kdir, "DONE"), "w").write(time.ctime())
+        prune("k-", 4)
+    return kdir, status
 
 
 def build_globals(cdir):
